@@ -9,7 +9,8 @@ From Dastard Require Import Common.ZX Common.CaseLib C07.Model C07.Spec.
 
 Inductive case :=
 | GateCase (cap bsize : Z) (tickmode : bool) (h : list (act * obs))
-| PipeCase (hdr : list Z) (recs : list (list Z * bool)) (strm : list Z) (hung : bool).
+| PipeCase (hdr : list Z) (recs : list (list Z * bool)) (strm : list Z) (hung : bool)
+| PubCase (hdr : list Z) (recs : list (list Z)) (strm : list Z) (hung : bool).
 
 (* ---------- programs of the two threads ---------- *)
 Definition progs_of (acts : list act) : list (list uop) :=
@@ -136,6 +137,9 @@ Definition verdict (c : case) : Z * Z :=
       (* trace inclusion: the observed trace must be one the specification allows *)
       let ok := C07_check_pipe hdr recs strm hung in
       (verdict_code ok ok, if ok then -1 else 0)
+  | PubCase hdr recs strm hung =>
+      let ok := C07_check_pipe_sub hdr recs strm hung in
+      (verdict_code ok ok, if ok then -1 else 0)
   end.
 
 (* ---------- compact constructors used by generated files ---------- *)
@@ -159,3 +163,5 @@ Definition mkG (cap bsize : Z) (tm : bool) (writes : list (list seg)) (h : list 
   GateCase cap bsize tm (map (fun ao => (fst ao, resolve tbl (snd ao))) h).
 Definition mkP (hdr : list seg) (recs : list (list (list seg * bool))) (strm : list (list seg)) (hung : bool) : case :=
   PipeCase (expand hdr) (map (fun rb => (expand (fst rb), snd rb)) (concat recs)) (expand (concat strm)) hung.
+Definition mkPS (hdr : list seg) (recs : list (list (list seg))) (strm : list (list seg)) (hung : bool) : case :=
+  PubCase (expand hdr) (map expand (concat recs)) (expand (concat strm)) hung.
